@@ -453,3 +453,18 @@ def build_ipputil(timeout=1800):
         sys.stderr.write(p.stdout[-4000:])
         raise ToolError("building ipputil from /repo failed")
     return os.path.join(tdir, "release", "ipputil")
+
+
+def apalache_check(pid, label, module_dir, module, args, timeout=900):
+    """one apalache-mc check; returns wall seconds; raises ToolError on a counterexample or failure"""
+    wd = workdir(pid)
+    out = os.path.join(wd, "apalache_" + label)
+    shutil.rmtree(out, ignore_errors=True)
+    t0 = time.time()
+    p = subprocess.run(["timeout", str(timeout), "apalache-mc", "check"] + args + ["--out-dir=" + out, module],
+                       cwd=module_dir, stdout=subprocess.PIPE, stderr=subprocess.STDOUT, text=True)
+    tail = p.stdout[-1500:]
+    shutil.rmtree(out, ignore_errors=True)
+    if "EXITCODE: OK" not in p.stdout:
+        raise ToolError("apalache %s %s did not succeed: %s" % (module, label, tail))
+    return time.time() - t0
